@@ -96,3 +96,9 @@ from .C02 import TaskGroupExit as _TaskGroupExit, ReEnterAsync as _ReEnterAsync 
 CONTRACTS = [variant(Run, "C06", P), variant(Spawn, "C06", P), variant(AsyncScope, "C06", _c06),
              variant(SyncScope, "C06", _c06), variant(StateBlock, "C06", _c06), variant(_TaskGroupExit, "C06", _c06),
              variant(_ReEnterAsync, "C06", _c06)]
+
+
+def extra_contracts():
+    """A context stream is an asynchronous scope too: what its source spawns must belong to the stream's own task group."""
+    from .C11 import StreamBody
+    return [variant(StreamBody, "C06", ("C06-P6",))]
